@@ -387,6 +387,18 @@ func init() {
 		unsup("ReplaceAllString on symbolic string (%s)", pat)
 		return nil
 	}
+	intrinsics["(*regexp.Regexp).FindStringIndex"] = func(fr *frame, a []value) value {
+		pat := rePat(fr, a[0])
+		s, ok := a[1].(string)
+		if !ok {
+			unsup("FindStringIndex on symbolic string (%s)", pat)
+		}
+		m := compileRe(pat).goRe.FindStringIndex(s)
+		if m == nil {
+			return []value(nil)
+		}
+		return []value{int64(m[0]), int64(m[1])}
+	}
 	intrinsics["(*regexp.Regexp).FindString"] = func(fr *frame, a []value) value {
 		pat := rePat(fr, a[0])
 		s, ok := a[1].(string)
